@@ -567,3 +567,60 @@ pub fn deep_first_scope(rep: &mut Report) {
         }
     }
 }
+
+/// Deep single attempts, UNBUDGETED (the verification budget is off, so production limits are what runs):
+/// an attempt at offset 0 that consumes the whole haystack through a capturing loop (several backtrack
+/// entries per character, N up to 720 000, thorough 3 000 000), fails at the very end, and is followed by a
+/// match elsewhere through another alternative. The expected result is known in closed form; the four
+/// entry points must agree, and groups that did not participate in the reported match must be None.
+pub fn deep_attempt_scope(rep: &mut Report, tag: &str, thorough: bool) {
+    use crate::util::*;
+    let sizes: &[usize] = if thorough { &[1_000, 100_000, 720_000, 3_000_000] } else { &[1_000, 100_000, 720_000] };
+    // (pattern, number of groups, index of the group that holds the final "b" or usize::MAX)
+    let pats: [(&str, usize, usize); 5] = [
+        ("x(y)(?:(a)|b)*c|b", 2, usize::MAX),
+        ("x(?<head>y)(?:(?<n>a)|b)+c|(?<n>b)", 3, 3),
+        ("x(y)(?:(a)|(b))*?c|b", 3, usize::MAX),
+        ("x(y)(?:(?=(a))a)*c|(b)", 3, 3),
+        ("x(y)(a)*c|b", 2, usize::MAX),
+    ];
+    for &n in sizes {
+        let hay = format!("xy{}b", "a".repeat(n));
+        for (p, groups, bgroup) in pats {
+            let re = compile(p, "", false).unwrap();
+            let label = format!("/{}/ on \"xy\" + \"a\"*{} + \"b\"", p, n);
+            rep.case(&label, true);
+            rep.count("deep-attempt");
+            let mut want = format!("{}-{}[", n + 2, n + 3);
+            for g in 1..=groups {
+                if g > 1 {
+                    want.push(';');
+                }
+                if g == bgroup {
+                    want.push_str(&format!("{}-{}", n + 2, n + 3));
+                } else {
+                    want.push('_');
+                }
+            }
+            want.push(']');
+            for e in [Exec::Bt, Exec::BtAscii, Exec::Pk] {
+                if matches!(e, Exec::Pk) && n > 720_000 {
+                    continue;
+                }
+                regress::verif::fuel::reset(u64::MAX);
+                let r = guarded(std::panic::AssertUnwindSafe(|| fmt_matches(&find_all(&re, e, &hay, 0, 0).0)));
+                let got = match r {
+                    Ok(t) => t,
+                    Err(m) => format!("panic: {}", m),
+                };
+                if got != want {
+                    rep.violation(
+                        &format!("impl-vs-oracle:{}", tag),
+                        format!("{}: expected [{}] (only the final b matches, through the last alternative; no other group participates), got [{}]", e.name(), want, if got.len() > 200 { &got[..200] } else { &got }),
+                        label.clone(),
+                    );
+                }
+            }
+        }
+    }
+}
